@@ -169,6 +169,7 @@ LIB = {
             {"decl": "class Cls", "declarations": [{"decl": "Cls()"}, {"decl": "~Cls()"}, {"decl": "int get() const"}]},
             {"decl": "namespace deep", "declarations": [{"decl": "class Leaf"}]},
             {"decl": "typedef long NsLong", "fields": {"base": "integer"}},
+            {"decl": "class Leaf"},          # ns::Leaf is not ns::deep::Leaf: every component of a qualified name is looked up in the scope reached so far
         ]},
         {"decl": "class Dev", "declarations": [{"decl": "Dev()"}]},
     ],
